@@ -26,6 +26,7 @@ func VerifC17Step() {
 		cfg.NewNick = func(string) string { return genOut }
 	}
 	conn := Client(cfg)
+	conn.initialise()
 	conn.out = make(chan string, 16)
 	if track {
 		conn.EnableStateTracking()
